@@ -7,6 +7,7 @@ from . import gateway_units as gu
 from .common import BASE_TRUSTED
 
 PROP = "C18"
+ASSUMPTION_CHECKS = ['A-STR', 'A-AIO']
 MIN_OBLIGATIONS = 15
 TRUSTED = BASE_TRUSTED + [
     "A-STR: split/rstrip/join lemma schemas incl. fields counted from the end of a '/'-separated topic (pyvc/strings.py)",
